@@ -471,14 +471,96 @@ fn interleaved_strategy(ctx: &Ctx) -> BoxedStrategy<InterleavedCase> {
         .boxed()
 }
 
+// ---------------------------------------------------------------------------
+// part replaced: an opaque Src layer nested in a layer whose rectangle is a different one of the same area
+
+#[derive(Clone, Debug, Serialize, Deserialize)]
+pub struct ReplacedCase {
+    pub w: i32,
+    pub h: i32,
+    pub init: Vec<u32>,
+    /// clip rectangle (x0, y0, x1, y1) the outer layer is pushed under (popped again while that layer is open)
+    pub r1: (i32, i32, i32, i32),
+    /// clip rectangle the inner layer is pushed under: same area, other offset and/or transposed
+    pub r2: (i32, i32, i32, i32),
+    pub outer_opacity: Fl,
+    pub outer_blend: u8,
+    /// fill_rect in the outer layer before the inner one: (x, y, w, h), premultiplied colour
+    pub a: ([f32; 4], u32),
+    /// fill_rect in the inner layer
+    pub b: ([f32; 4], u32),
+}
+
+/// push_layer_with_blend(1.0, Src) under clip R2 inside an open layer, draw, pop: by the statement the group is drawn
+/// on a transparent surface and replaces, inside R2, what the outer layer held; that is what clear(transparent)
+/// followed by the same draw, both under R2 and directly in the outer layer, produce. Bit-identical.
+pub fn check_replaced(c: &ReplacedCase) -> CheckResult {
+    let mut o = Outcome::new();
+    o.fp = fp_of(c);
+    let run = |nested: bool| {
+        let mut dt = new_target(c.w, c.h, &c.init);
+        dt.push_clip_rect(irect(c.r1.0, c.r1.1, c.r1.2, c.r1.3));
+        dt.push_layer_with_blend(c.outer_opacity.0, BLEND_MODES[c.outer_blend as usize]);
+        dt.fill_rect(c.a.0[0], c.a.0[1], c.a.0[2], c.a.0[3], &Source::Solid(solid_of(c.a.1)), &DrawOptions::new());
+        dt.pop_clip();
+        dt.push_clip_rect(irect(c.r2.0, c.r2.1, c.r2.2, c.r2.3));
+        if nested {
+            dt.push_layer_with_blend(1.0, BlendMode::Src);
+        } else {
+            dt.clear(SolidSource { r: 0, g: 0, b: 0, a: 0 });
+        }
+        dt.fill_rect(c.b.0[0], c.b.0[1], c.b.0[2], c.b.0[3], &Source::Solid(solid_of(c.b.1)), &DrawOptions::new());
+        if nested {
+            dt.pop_layer();
+        }
+        dt.pop_clip();
+        dt.pop_layer();
+        dt.get_data().to_vec()
+    };
+    let (with_layer, direct) = (run(true), run(false));
+    let diff = (0..with_layer.len()).find(|i| with_layer[*i] != direct[*i]).map(|i| format!("pixel ({},{}): {} vs {}", i as i32 % c.w, i as i32 / c.w, hex(with_layer[i]), hex(direct[i])));
+    if let Some(m) = diff {
+        return Err(format!(
+            "an opaque Src layer under clip {:?} nested in a layer of rectangle {:?} differs from clearing that clip to transparent and drawing directly in the outer layer: {}",
+            c.r2, c.r1, m
+        ));
+    }
+    o.judged = c.init.len() as u64;
+    o.nontrivial = c.r1 != c.r2 && with_layer != c.init;
+    let area = |r: (i32, i32, i32, i32)| (r.2 - r.0) * (r.3 - r.1);
+    o.class_if(c.r1 != c.r2 && area(c.r1) == area(c.r2), "inner-rectangle-differs-from-the-outer-one-with-equal-area");
+    o.class_if((c.r1.2 - c.r1.0) != (c.r2.2 - c.r2.0), "transposed");
+    Ok(o)
+}
+
+fn replaced_strategy() -> BoxedStrategy<ReplacedCase> {
+    (6i32..=14, 6i32..=14)
+        .prop_flat_map(|(w, h)| {
+            let f = || 0.0f64..1.0;
+            let rect = move || (-2.0f32..w as f32, -2.0f32..h as f32, 0.5f32..w as f32, 0.5f32..h as f32).prop_map(|(x, y, rw, rh)| [x, y, rw, rh]);
+            (Just((w, h)), init_pixels(w, h), (f(), f(), f(), f()), (f(), f(), any::<bool>()), alpha_f(), blend_biased(), (rect(), px_premul()), (rect(), px_premul()))
+        })
+        .prop_map(|((w, h), init, (fw, fh, fx, fy), (gx, gy, transposed), op, blend, a, b)| {
+            let pick = |f: f64, lo: i32, hi: i32| lo + (f * (hi - lo + 1) as f64) as i32;
+            // R1 of 2..min(w,h)-1 by 2..min(w,h)-1 (so that its transpose fits as well), anywhere on the surface
+            let m = w.min(h) - 1;
+            let (w1, h1) = (pick(fw, 2, m).min(m), pick(fh, 2, m).min(m));
+            let (x1, y1) = (pick(fx, 0, w - w1).min(w - w1), pick(fy, 0, h - h1).min(h - h1));
+            let (w2, h2) = if transposed { (h1, w1) } else { (w1, h1) };
+            let (x2, y2) = (pick(gx, 0, w - w2).min(w - w2), pick(gy, 0, h - h2).min(h - h2));
+            ReplacedCase { w, h, init, r1: (x1, y1, x1 + w1, y1 + h1), r2: (x2, y2, x2 + w2, y2 + h2), outer_opacity: Fl(op), outer_blend: blend, a, b }
+        })
+        .boxed()
+}
+
 pub fn property(ctx: &Ctx) -> Property {
     let c = ctx.clone();
     let c2 = ctx.clone();
     Property {
         id: "C06",
-        rule: "cases: properly nested histories with at least one push_layer_with_blend group (opacity in {0,1,0.5,1/255-neighbours,uniform}, 28 blend modes) at top level or under a clip (rect at an offset / partly off-surface / inverted, quarter-grid path), containing fills, fill_rects, masks, clear, image draws, quarter-pixel transform changes (one group in ten ends by setting a non-invertible transform, so that it is popped under it), balanced clip pushes and nested layers (depth <= 3), on non-transparent initial contents. Oracle: the group's inner ops are replayed without the layer on a separate transparent surface with the same transform and clip stack (nested layers judged recursively there); after pop every pixel must equal the compositor formula with source = isolated group pixel, coverage = round(255 opacity), clip coverage = product of pushed path coverages, blend = layer blend (exact at opacity 1 without partial clip, +-3/255 otherwise); outside the clip rectangle unchanged; the base surface must not change while the layer is open; push/pop leave the transform alone. part interleaved: clip rect at an offset, layer, a draw, then a second draw (any kind, any transform, in a third of the cases inside a further layer) made either after or before the clip is popped; pixels inside the rectangle must be bit-identical between the two orders; outside it, pixels that no draw reached must keep their value when the layer's blend mode keeps the destination under a transparent source. A third of the cases push the clip *inside* the layer and pop it after pop_layer (with a draw in between that must still be clipped): bit-identical to the history that pushes the same clip just before the layer. One clipped group in eight lies beside the surface in one axis only (an empty clip whose bounds are not empty rectangles), and a panic of the library in any of these histories, other than the known sw-composite ones, is a failure of this property (an empty layer must be harmless). Non-trivial: opacity != 1, blend != SrcOver, nesting >= 2, layer origin != (0,0) or clear inside; distinct by hash of the case.",
+        rule: "cases: properly nested histories with at least one push_layer_with_blend group (opacity in {0,1,0.5,1/255-neighbours,uniform}, 28 blend modes) at top level or under a clip (rect at an offset / partly off-surface / inverted, quarter-grid path), containing fills, fill_rects, masks, clear, image draws, quarter-pixel transform changes (one group in ten ends by setting a non-invertible transform, so that it is popped under it), balanced clip pushes and nested layers (depth <= 3), on non-transparent initial contents. Oracle: the group's inner ops are replayed without the layer on a separate transparent surface with the same transform and clip stack (nested layers judged recursively there); after pop every pixel must equal the compositor formula with source = isolated group pixel, coverage = round(255 opacity), clip coverage = product of pushed path coverages, blend = layer blend (exact at opacity 1 without partial clip, +-3/255 otherwise); outside the clip rectangle unchanged; the base surface must not change while the layer is open; push/pop leave the transform alone. part interleaved: clip rect at an offset, layer, a draw, then a second draw (any kind, any transform, in a third of the cases inside a further layer) made either after or before the clip is popped; pixels inside the rectangle must be bit-identical between the two orders; outside it, pixels that no draw reached must keep their value when the layer's blend mode keeps the destination under a transparent source. A third of the cases push the clip *inside* the layer and pop it after pop_layer (with a draw in between that must still be clipped): bit-identical to the history that pushes the same clip just before the layer. One clipped group in eight lies beside the surface in one axis only (an empty clip whose bounds are not empty rectangles), and a panic of the library in any of these histories, other than the known sw-composite ones, is a failure of this property (an empty layer must be harmless). part replaced: a layer under clip R1 whose clip is popped while it is open, then an opaque Src layer pushed under a clip R2 of the same area at another offset or transposed, one fill_rect in each: bit-identical to clearing R2 to transparent and drawing directly in the outer layer (a Src group replaces what lies under it inside the clip). Non-trivial: opacity != 1, blend != SrcOver, nesting >= 2, layer origin != (0,0) or clear inside; distinct by hash of the case.",
         assumptions: vec!["the inner draws themselves (on a plain surface) are judged by C02/C03/C05", "improperly interleaved stacks (popping inside a layer a clip pushed outside it): the statement does not say what a draw outside the layer's original clip means, so part interleaved only demands what holds under every reading (inside the rectangle, popping the clip before or after the draw is the same)"],
-        parts: vec![part("group", 100_000, 1_500_000, move || strategy(&c), check), part("interleaved", 30_000, 600_000, move || interleaved_strategy(&c2), check_interleaved)],
+        parts: vec![part("group", 100_000, 1_500_000, move || strategy(&c), check), part("interleaved", 30_000, 600_000, move || interleaved_strategy(&c2), check_interleaved), part("replaced", 20_000, 400_000, replaced_strategy, check_replaced)],
         min_class_fraction: vec![
             ("group", "opacity-partial", 0.2),
             ("group", "layer-blend-non-srcover", 0.3),
@@ -489,6 +571,7 @@ pub fn property(ctx: &Ctx) -> Property {
             ("group", "popped-under-singular-transform", 0.015),
             ("interleaved", "second-draw-reaches-beyond-the-layer", 0.15),
             ("interleaved", "clip-pushed-inside-the-layer-and-popped-after-it", 0.2),
+            ("replaced", "inner-rectangle-differs-from-the-outer-one-with-equal-area", 0.5),
         ],
         panic_is_violation: true,
     }
